@@ -61,7 +61,7 @@ def run_engine(unit, tier):
         ev += stats['evaluations']
         for name, d in dg:
             digests.append(('%s#%d:%s' % (ch, i, name), d))
-            if isinstance(d, tuple) and len(d[4]) >= 2 or (isinstance(d, str) and d.startswith('exc')):
+            if (isinstance(d, tuple) and len(d) == 8 and len(d[4]) >= 2) or (isinstance(d, str) and d.startswith('exc')):
                 keys.add(hash((ch, i, name)))
         sample = dict(kind='engine', ch=ch, seed_index=i, family=fam, depth=depth, dtype=seed[0]['dtype'], steps=len(dg))
     return dict(evaluations=ev, transitions=ev, states=len(digests), traces=ev, nontrivial_count=len(keys), digests=digests, samples=[sample] if sample else [])
@@ -146,7 +146,7 @@ def run_helpers(unit):
                                 return dest
                             emit('sliced_copy:%s:%r:%r:%r' % (np.dtype(dtype).name, db, sb, sl), _call(f))
     elif which == 'make_stride':
-        for n in range(0, 4):
+        for n in range(1, 4):  # (rank 0 does not occur: tensors without legs are not allowed)
             for shp in itertools.product(range(1, 4), repeat=n):
                 for cstyle in (True, False):
                     emit('make_stride:%r:%s' % (shp, cstyle), _call(charges._make_stride, tuple(shp), cstyle))
